@@ -134,6 +134,56 @@ Family(globals(), "h_markers", params=[("hosti", 0, 1), ("np", 0, 2), ("nd", 0, 
        pre=pre_m, case=case_m, split=["hosti"], tiers=LIM)
 
 
+# ---- a state that queries the chart (is_in / child_state) while it handles an event -------------------------------------------
+def pre_q(v, lim):
+  return True
+
+
+def case_q(hosti, by, qkind, qarg, rk):
+  """chain outer(0) > middle(1) > inner(2), current inner; state `by` answers the event (rk 0: handles it internally, 1: transition to outer);
+  while answering it calls is_in(state qarg) (qkind 0) or child_state(state qarg) (qkind 1)"""
+  from vf import charts
+  host = IHOSTS[hosti]
+  parent = [-1, 0, 1]
+  react = [charts.R_PASS] * 3
+  react[by] = charts.R_HANDLE if rk == 0 else 0
+  what = "host=%s answered by s%d (%s), which calls %s(s%d) first" % (hosts.HOSTS[host], by, "hook" if rk == 0 else "transition", ["is_in", "child_state"][qkind], qarg)
+  try:
+    c, _sl, _tl = hosts.make(host)
+    ch = charts.Chart(parent, react, [-1, -1, -1], decorate=True, fresh=False)
+    orig = ch._react
+
+    def react_with_query(i, chart, s):
+      if i == by and s == ch.SIG:
+        if qkind == 0:
+          chart.is_in(ch.hs[qarg])
+        else:
+          chart.child_state(ch.hs[qarg])
+      return orig(i, chart, s)
+    ch._react = react_with_query
+    c.start_at(ch.hs[2])
+    del ch.enter_return[:]
+    hosts.step(c, host, ch.Event(signal=ch.SIG))
+    rtc = list(c.rtc.spy)
+  except Exception as ex:
+    return FAIL("raised:%s" % type(ex).__name__, "%s: %r" % (what, ex))
+  exp = []
+  for (kind, sname, st, status) in ch.enter_return:
+    if kind == "E":
+      exp.append("%s:%s" % (sname, ch.names[st]))
+    elif not ch.signals.is_inner_signal(sname) and status == ch.rs.HANDLED:
+      exp.append("%s:%s:HOOK" % (sname, ch.names[st]))
+  if host >= 2:
+    exp.append("<- Queued:(0) Deferred:(0)")
+  if rtc != exp:
+    bad_hook = [x for x in rtc if x.endswith(":HOOK")] != [x for x in exp if x.endswith(":HOOK")]
+    return FAIL("spy-hook-marker-wrong-state" if bad_hook else "spy-rtc-with-query", "%s: %s expected %s" % (what, rtc, exp))
+  return PASS(nontrivial=True)
+
+
+Family(globals(), "h_hook_query", params=[("hosti", 0, 3), ("by", 0, 2), ("qkind", 0, 1), ("qarg", 0, 2), ("rk", 0, 1)], pre=pre_q, case=case_q, split=[], tiers=LIM)
+
+
 def set_tier(tier):
   set_tier_all(globals(), tier)
 
